@@ -435,6 +435,26 @@ impl<'a> Gen<'a> {
                 let cols = sq.out.iter().map(|c| (c.clone(), K::I)).collect();
                 (From_::Sub(Box::new(sq), alias.clone()), Rel { name: alias, cols, key: vec![] })
             }
+            1 if self.cfg.dialect.is_some() && self.rng.coin() => {
+                // a VALUES list as a table: 1-3 rows of (integer, text); the engines name its columns themselves
+                let nrows = 1 + self.rng.below(3) as usize;
+                let mut rows = vec![];
+                for _ in 0..nrows {
+                    let i = match self.int_val() {
+                        X::Int(v) => v,
+                        _ => 1,
+                    };
+                    let t = match self.text_val() {
+                        X::Text(t) => t,
+                        _ => "x".into(),
+                    };
+                    rows.push(vec![Value::BigInt(Some(i)), Value::String(Some(Box::new(t)))]);
+                }
+                let alias = self.fresh("v");
+                let names = if self.cfg.is(Dialect::Mysql) { ["column_0", "column_1"] } else { ["column1", "column2"] };
+                let cols = vec![(names[0].to_string(), K::I), (names[1].to_string(), K::T)];
+                (From_::Values(rows, alias.clone()), Rel { name: alias, cols, key: vec![] })
+            }
             _ => {
                 let t = self.pick_base();
                 let rel = self.alias_rel(&t);
@@ -1091,6 +1111,9 @@ pub fn clause_kinds(s: &Stmt) -> Vec<&'static str> {
         }
         if q.from.iter().any(|f| matches!(f, From_::Sub(..))) || q.joins.iter().any(|j| matches!(j.from, From_::Sub(..))) {
             v.push("from-subquery");
+        }
+        if q.from.iter().any(|f| matches!(f, From_::Values(..))) || q.joins.iter().any(|j| matches!(j.from, From_::Values(..))) {
+            v.push("values-list");
         }
         if !q.wheres.is_empty() {
             v.push("where");
